@@ -348,6 +348,9 @@ func runC10(c *Ctx) {
 				if pn := predOf(call.Call); pn != "" {
 					order = append(order, pn)
 				}
+				if call.Call.IsInvoke() && call.Call.Method != nil && call.Call.Method.Name() == "GetCommitsForModuleKeys" {
+					order = append(order, "GetCommitsForModuleKeys")
+				}
 				if sc := call.Call.StaticCallee(); sc != nil && sc.Pkg == f.Pkg && strings.HasPrefix(sc.Name(), "select") {
 					visit(sc)
 				}
@@ -396,8 +399,18 @@ func runC10(c *Ctx) {
 			}
 		}
 		c.Ob("PREFERENCE-CHAIN", "selection/returns-filtered-element", entry.Decl.Pos(), okElem && nIdx >= 2, true, "%d returns hand back an indexed element, each of a list narrowed by IsTarget or IsLocal: %v", nIdx, okElem)
-		last := stages[len(stages)-1]
-		c.Ob("PREFERENCE-CHAIN", "selection/last-stage", entry.Decl.Pos(), len(stages) >= 2 && strings.Contains(strings.ToLower(last.Name()), "remote"), true, "the chain ends in the resolution between remote modules (%s), %d stage function(s)", last.Name(), len(stages))
+		// the registry's commit times are consulted only after both narrowings
+		firstCommits, lastPred := -1, -1
+		for i, o := range order {
+			if o == "GetCommitsForModuleKeys" {
+				if firstCommits < 0 {
+					firstCommits = i
+				}
+			} else {
+				lastPred = i
+			}
+		}
+		c.Ob("PREFERENCE-CHAIN", "selection/last-stage", entry.Decl.Pos(), firstCommits > lastPred && lastPred >= 0, true, "the chain ends in the resolution between remote modules by commit time (GetCommitsForModuleKeys met after every IsTarget/IsLocal narrowing: %v), %d stage function(s)", order, len(stages))
 	} else {
 		c.Fail("PREFERENCE-CHAIN", "selectAddedModuleForOpaqueID", token.NoPos, "not found")
 	}
